@@ -88,7 +88,8 @@ def judge_cycle(name, n, rc, out, err):
             ms[f[1]] = _kv(f[2:])
     v = {"name": name, "N": n, "measures": ms, "leaks": {}, "fail": None}
     if rc != 0 or "RETURNED" not in out or len(ms) < 3:
-        why = "watchdog: event loop did not return" if "WATCHDOG" in out else ("timeout" if rc is None else "rc=%s" % rc)
+        why = ("hang: " + [l for l in out.splitlines() if l.startswith(("IDLE-NOT-DONE", "STALE-TIMERS-BLOCK"))][0]) if ("IDLE-NOT-DONE" in out or "STALE-TIMERS-BLOCK" in out) else (
+            "watchdog: event loop did not return" if "WATCHDOG" in out else ("timeout" if rc is None else "rc=%s" % rc))
         v["fail"] = "%s; stdout tail: %s; stderr tail: %s" % (why, out[-400:], err[-1200:])
         return v
     thr = max(3, n // 10)
@@ -103,7 +104,7 @@ def judge_cycle(name, n, rc, out, err):
 
 def run_cycle(hx, name, rng, n):
     src, par = c20gen.cycle_script(name, rng, n)
-    rc, out, err = run_script(hx, src, "cyc-" + name)
+    rc, out, err = run_script(hx, src, "cyc-" + name, args=("--idle",), watchdog=400, timeout=3000)
     v = judge_cycle(name, n, rc, out, err)
     v["src"] = src
     v["params"] = par
@@ -114,6 +115,9 @@ def run_cycle(hx, name, rng, n):
 
 def judge_mix(expect, chosen, rc, out, err):
     """Termination oracle + per-step ground-truth oracle.  Returns list of (sig, what) problems."""
+    if isinstance(chosen, list):
+        chosen = dict(enumerate(chosen))
+    chosen = {int(k): v for k, v in chosen.items()}
     probs = []
     logs = {}
     returned = None
@@ -347,7 +351,7 @@ def run(ctx):
     seen_sigs = set()
     for m in mixes:
         total_steps += m["info"]["steps"]
-        for k in m["chosen"]:
+        for k in (m["chosen"].values() if isinstance(m["chosen"], dict) else m["chosen"]):
             kinds_hit[k] = kinds_hit.get(k, 0) + 1
         for sig, what in m["probs"]:
             if sig in seen_sigs:
@@ -429,7 +433,7 @@ def replay(ctx, path):
     print(json.dumps({k: v for k, v in r.items() if k not in ("source", "stdout_tail")}, indent=1)[:3000])
     hx = ctx.build.harness("asan", "c20loop", [os.path.join(VERIF, "harness/C20/c20loop.c")])
     if r.get("kind") == "cycle":
-        rc, out, err = run_script(hx, r["source"], "replay")
+        rc, out, err = run_script(hx, r["source"], "replay", args=("--idle",), watchdog=400)
         v = judge_cycle(r["name"], r["N"], rc, out, err)
         print(out[-1500:])
         if v["leaks"] or v["fail"]:
